@@ -46,6 +46,14 @@ def main():
                           {"stage": "driver", "traceback": tb[-3000:], "replay": None})
             ctx.finish()
             rc = 1
+        elif frames and os.path.basename(inner).startswith(("drv_", "product.py", "lifecycle.py")) \
+                and isinstance(sys.exc_info()[1], (TypeError, AttributeError, KeyError, IndexError, ValueError, AssertionError)):
+            # a driver failed while READING what the implementation reported (a None / wrongly shaped / wrongly typed public output).  The drivers
+            # are deterministic and read the unchanged code's outputs without error, so this is an observable deviation of the code under test
+            ctx.violation("a public output of the implementation could not be interpreted by the driver (%s: %s)"
+                          % (sys.exc_info()[0].__name__, str(sys.exc_info()[1])[:300]), {"stage": "driver", "traceback": tb[-3000:], "replay": None})
+            ctx.finish()
+            rc = 1
         else:
             print(tb)
             print("MACHINERY-FAILURE %s: unexpected exception in the harness" % pid)
